@@ -43,6 +43,39 @@ spec-level negative controls (re-run in every check, TLC must report the violati
            StaleKey = TRUE (object layer: the key survives an assignment) -> Agree, HashConsistent violated;
            NoResplit = TRUE (object layer: after a component assignment the recomposed string is not split
            again: stale components after a boundary move) -> Agree, HashConsistent violated
+API surface (notes/API_SURFACE.md): every public way of building, comparing, ordering, hashing and mutating
+versions, and where it is exercised (all in the quick tier, rotating; same TLC verdicts; the objects of
+one chunk / trace come from DIFFERENT variants and are queried through all of them):
+  entry point / variant                                   exercised by
+  ------------------------------------------------------  -------------------------------------------------
+  Version(str)                                            replay pool, traces (make_obj "Version")
+  NativeVersion(str) (the class behind the alias)         replay pool, traces ("NativeVersion")
+  AptPkgVersion(str)                                      out of domain: raises NotImplementedError, apt_pkg absent
+  BaseVersion(str) (no comparison of its own)             as RIGHT operand of a Version (battery variant), and as
+                                                          source of a copy construction
+  Version(Version) / Version(BaseVersion) / NativeVersion(Version)   replay pool, traces ("copy of Version" ...)
+  debian.changelog.Version (re-export)                    replay pool, traces ("changelog.Version")
+  ChangeBlock(version=s).version                          replay pool, traces ("ChangeBlock.version")
+  Changelog(text).version / get_version() / versions      replay pool, traces ("Changelog.version", rare: parse cost)
+  Changelog[str] / Changelog[Version] (lookup by ==)      traces: coll.clidx, judged by TLC (first equal block)
+  Packages({'Version': s}).get_version() (deb822 mixin)   replay pool, traces ("deb822 get_version"); Dsc/Changes/
+                                                          BuildInfo share the same mixin method
+  pickle.loads(pickle.dumps(v)), copy.copy, copy.deepcopy replay pool, traces ("pickle", "copy", "deepcopy")
+  < <= == != >= > on Version/Version                      every battery / event
+  ... with a str operand on either side                   battery variants, trace events
+  ... with a BaseVersion right operand                    battery variant
+  version_compare(a, b) with str and with Version args    every battery (objects) / fresh-temporaries variant (str)
+  hash(v), set(), dict keys                               heq in every observation; coll.nset
+  sorted(), list.sort, min(), max()                       traces: coll.order / mn / mx, judged by TLC
+  sorted(key=cmp_to_key(version_compare))                 traces: coll.order2
+  list.index / in (==)                                    traces: coll.idx
+  str(v) -> Version(str(v)) equal, equal hash             boundary traces ("fresh object of its own string")
+  repr(v)                                                 out of scope of C03 (printing: C14); not a verdict
+  v.full_version = / v.epoch = / v.upstream_version = / v.debian_revision = / v.debian_version = (alias)
+                                                          MUT replay (all five), trace walk, boundary traces
+  deprecated camelCase aliases                            none exist for the version API (only for unrelated
+                                                          functions of debian_support)
+  Version(None) / comparison with None                    out of domain: not a version string
 domain:    DESIGN.md D2: only valid version strings, nothing from the unspecified zone (empty revision,
            ':' after the last hyphen, nothing before the last hyphen).  The trace module re-checks it
            (TDomain); a generator bug is a machinery failure, not a finding.
@@ -151,17 +184,101 @@ def judge(obs, exp_ops, exp_heq):
     return None
 
 
+CONSTRUCTORS = ("Version", "NativeVersion", "copy of Version", "copy of BaseVersion", "NativeVersion(Version)",
+                "changelog.Version", "ChangeBlock.version", "deb822 get_version", "pickle", "copy", "deepcopy",
+                "Changelog.version")
+# rotation: the expensive parse of a changelog text only once per 24 objects
+ROTATION = [0, 1, 2, 3, 6, 7, 8, 9, 10, 4, 5, 0, 2, 7, 8, 6, 1, 3, 9, 10, 5, 4, 11, 0]
+CHANGELOG_BLOCK = "pkg (%s) unstable; urgency=low\n\n  * change\n\n -- A B <a@b.org>  Mon, 01 Jan 2024 00:00:00 +0000\n\n"
+CONSTRUCTED = {}
+
+
+class Broken:
+    """stands for an object whose construction raised: the exception is an OBSERVATION -- every
+    comparison / hash of it raises again, so the pair is judged (and never explained)"""
+
+    def __init__(self, v, how, e):
+        self.v = v
+        self.msg = "constructing %r through %s raised %s: %s" % (v, how, type(e).__name__, e)
+
+    def _boom(self, *a):
+        raise RuntimeError(self.msg)
+    __lt__ = __le__ = __eq__ = __ne__ = __ge__ = __gt__ = __hash__ = _boom
+
+    def __str__(self):
+        return self.v
+
+
+def _base(v):
+    from debian.debian_support import BaseVersion
+    try:
+        return BaseVersion(v)
+    except Exception as e:                          # noqa
+        return Broken(v, "BaseVersion", e)
+
+
+def fresh(v):
+    """Version(v); a constructor that raises is an observation, not a harness crash"""
+    from debian.debian_support import Version
+    try:
+        return Version(v)
+    except Exception as e:                          # noqa: broad on purpose
+        return Broken(v, "Version", e)
+
+
+def make_obj(v, k):
+    """a comparable version object holding the string v, obtained through the k-th public way"""
+    try:
+        return _make_obj(v, k)
+    except Exception as e:                          # noqa: broad on purpose
+        return Broken(v, CONSTRUCTORS[ROTATION[k % len(ROTATION)]], e)
+
+
+def _make_obj(v, k):
+    import copy as _copy
+    import pickle
+    from debian import changelog, deb822, debian_support as ds
+    name = CONSTRUCTORS[ROTATION[k % len(ROTATION)]]
+    CONSTRUCTED[name] = CONSTRUCTED.get(name, 0) + 1
+    if name == "Version":
+        return ds.Version(v)
+    if name == "NativeVersion":
+        return ds.NativeVersion(v)
+    if name == "copy of Version":
+        return ds.Version(ds.Version(v))
+    if name == "copy of BaseVersion":
+        return ds.Version(ds.BaseVersion(v))
+    if name == "NativeVersion(Version)":
+        return ds.NativeVersion(ds.Version(v))
+    if name == "changelog.Version":
+        return changelog.Version(v)
+    if name == "ChangeBlock.version":
+        return changelog.ChangeBlock(package="pkg", version=v).version
+    if name == "deb822 get_version":
+        return deb822.Packages({"Package": "pkg", "Version": v}).get_version()
+    if name == "pickle":
+        return pickle.loads(pickle.dumps(ds.Version(v)))
+    if name == "copy":
+        return _copy.copy(ds.Version(v))
+    if name == "deepcopy":
+        return _copy.deepcopy(ds.Version(v))
+    ch = changelog.Changelog(CHANGELOG_BLOCK % v)
+    return (ch.version, ch.get_version(), ch.versions[0])[k % 3]
+
+
 class Pool:
-    """long-lived Version objects, one per string, re-used for every partner they meet"""
+    """long-lived version objects, one per string, re-used for every partner they meet; each is
+    obtained through the next public constructor variant"""
 
     def __init__(self):
         self.objs = {}
+        self.n = 0
 
     def get(self, s):
-        from debian.debian_support import Version
         o = self.objs.get(s)
         if o is None:
-            o = self.objs[s] = Version(s)
+            self.n += 1
+            o = self.objs[s] = make_obj(s, self.n + len(s))
         return o
 
     def churn(self, rng):
@@ -171,27 +288,29 @@ class Pool:
                 del self.objs[k]
 
 
-VARIANTS = 4
+VARIANTS = 5
 
 
 def battery(pool, sa, sb, fwd, rev, heq, variant):
     """one visit of a pair: pooled objects in both operand orders, plus one of: string operand on the
     right / on the left, fresh temporaries, string operand in the reversed order.
     fwd / rev: TLC's OPS rows for (a, b) and (b, a).  Returns None or (where, observation, message)."""
-    from debian.debian_support import Version
+    from debian.debian_support import Version, BaseVersion
     oa, ob = pool.get(sa), pool.get(sb)
     todo = [("Version(a) <op> Version(b), pooled objects", lambda: observe_pair(oa, ob, oa, ob), fwd),
             ("Version(b) <op> Version(a), pooled objects", lambda: observe_pair(ob, oa, ob, oa, cmp=False), rev)]
     v = variant % VARIANTS
     if v == 0:
-        todo.append(("Version(a) <op> 'b' (str operand)", lambda: observe_pair(oa, sb, oa, Version(sb), cmp=False), fwd))
+        todo.append(("Version(a) <op> 'b' (str operand)", lambda: observe_pair(oa, sb, oa, fresh(sb), cmp=False), fwd))
     elif v == 1:
-        todo.append(("'a' <op> Version(b) (str operand)", lambda: observe_pair(sa, ob, Version(sa), ob, cmp=False), fwd))
+        todo.append(("'a' <op> Version(b) (str operand)", lambda: observe_pair(sa, ob, fresh(sa), ob, cmp=False), fwd))
     elif v == 2:
         todo.append(("Version(a) <op> Version(b), fresh temporaries", lambda: observe(sa, sb), fwd))
         todo.append(("Version(b) <op> Version(a), fresh temporaries", lambda: observe(sb, sa), rev))
+    elif v == 3:
+        todo.append(("Version(b) <op> 'a' (str operand)", lambda: observe_pair(ob, sa, ob, fresh(sa), cmp=False), rev))
     else:
-        todo.append(("Version(b) <op> 'a' (str operand)", lambda: observe_pair(ob, sa, ob, Version(sa), cmp=False), rev))
+        todo.append(("Version(a) <op> BaseVersion(b)", lambda: observe_pair(oa, _base(sb), oa, fresh(sb), cmp=False), fwd))
     for where, f, exp in todo:
         obs = f()
         msg = judge(obs, exp, heq)
@@ -427,7 +546,7 @@ def run_mut(pool, sv, how, exp0, exp1, k):
     Returns ("ok" | "skip" | "bad", detail)"""
     from debian.debian_support import Version
     s1, s2, arg, s1n = sv
-    a = Version(s1)
+    a = fresh(s1)
     b = pool.get(s2)
 
     def look(exp, stage, first=True):
@@ -698,6 +817,35 @@ def _event(i, j, obs, src):
     return e
 
 
+def collect(objs, strs):
+    """the collection-level entry points on objects holding strs[0..n-1] (positions are 1-based)"""
+    import functools
+    from debian import changelog
+    from debian.debian_support import version_compare
+    n = len(objs)
+    pos = {id(o): i + 1 for i, o in enumerate(objs)}
+    try:
+        order = [pos[id(o)] for o in sorted(objs)]
+        mixed = [objs[i] if i % 2 else strs[i] for i in range(n)]         # version_compare takes both
+        order2 = [i + 1 for i in sorted(range(n), key=functools.cmp_to_key(lambda i, j: version_compare(mixed[i], mixed[j])))]
+        lst = list(objs)
+        lst.sort(reverse=True)
+        if [pos[id(o)] for o in lst] != [pos[id(o)] for o in sorted(objs, reverse=True)]:
+            order = []                                        # list.sort and sorted disagree: never explained
+        probe = make_obj(strs[-1], n + len(strs[-1]))
+        q = {"order": order, "order2": order2, "mn": pos[id(min(objs))], "mx": pos[id(max(objs))],
+             "nset": len(set(objs)) if len(set(objs)) == len(dict.fromkeys(objs)) else 0,
+             "idx": objs.index(probe) + 1 if probe in objs else 0, "clidx": 0}
+        if all(len(x) < 200 for x in strs):
+            ch = changelog.Changelog("".join(CHANGELOG_BLOCK % x for x in strs))
+            blk = ch[strs[-1]] if n % 2 else ch[probe]       # lookup by version EQUALITY, str or Version key
+            q["clidx"] = [i for i, b in enumerate(ch) if b is blk][0] + 1
+        return q
+    except Exception as e:                                    # noqa: an observation, never explained by TLC
+        return {"order": [], "order2": [], "mn": 0, "mx": 0, "nset": 0, "idx": 0, "clidx": 0,
+                "exc": "%s: %s" % (type(e).__name__, e)}
+
+
 def record_trace(strs):
     """run the strings of one trace through the real code (deterministic for given strings).  Every
     event is one full observation of the pair (string i, string j) -- i, j being the strings the two
@@ -713,7 +861,8 @@ def record_trace(strs):
     pairs = [(i, j) for i in range(n) for j in range(n) if i != j]
     events = []
     notes = []
-    pool = [Version(x) for x in strs]
+    salt = n + len(strs[0])
+    pool = [make_obj(x, salt + 5 * i) for i, x in enumerate(strs)]     # different public constructors
 
     def ev(i, j, L, R, hl, hr, src):
         events.append(_event(i, j, observe_pair(L, R, hl, hr), src))
@@ -723,12 +872,12 @@ def record_trace(strs):
     ev(0, 0, pool[0], pool[0], pool[0], pool[0], "same object")
     for k, (i, j) in enumerate(pairs):
         if k % 3 == 0:
-            ev(i, j, pool[i], strs[j], pool[i], Version(strs[j]), "Version <op> str")
+            ev(i, j, pool[i], strs[j], pool[i], fresh(strs[j]), "Version <op> str")
         elif k % 3 == 1:
-            ev(i, j, strs[i], pool[j], Version(strs[i]), pool[j], "str <op> Version")
+            ev(i, j, strs[i], pool[j], fresh(strs[i]), pool[j], "str <op> Version")
         else:
             events.append(_event(i, j, observe(strs[i], strs[j]), "fresh temporaries"))
-    m = Version(strs[0])
+    m = make_obj(strs[0], salt + 3)
     for j in range(1, n):
         ev(0, j, m, pool[j], m, pool[j], "m before any assignment")
     for t in list(range(1, n)) + [0]:
@@ -747,10 +896,11 @@ def record_trace(strs):
                 ev(j, t, pool[j], m, pool[j], m, "object <op> m assigned (%s)" % how)
     for i in range(0, n, 2):
         pool[i] = None
-        pool[i] = Version(strs[i])
+        pool[i] = make_obj(strs[i], salt + 7 + i)
     for i, j in reversed(pairs):
         ev(i, j, pool[i], pool[j], pool[i], pool[j], "objects, second time")
-    return {"vs": [cps(x) for x in strs], "strs": list(strs), "events": events, "notes": notes}
+    return {"vs": [cps(x) for x in strs], "strs": list(strs), "events": events, "notes": notes,
+            "coll": collect(pool, strs)}
 
 
 def in_domain(v):
@@ -804,7 +954,7 @@ def record_boundary(v, partner, op, salt):
     and with a fresh object of its former string.  None: op not applicable / rejected by the code /
     result outside the domain (C14's subject)."""
     from debian.debian_support import Version
-    obj, pp = Version(v), Version(partner)
+    obj, pp = make_obj(v, salt + len(v)), make_obj(partner, salt + 2)
     events = []
 
     def ev(i, j, L, R, src, hl=None, hr=None):
@@ -821,17 +971,18 @@ def record_boundary(v, partner, op, salt):
     if not in_domain(d) or len(d) > MAXLEN + 8:
         return None
     src = "object after %s" % op
-    fresh, old = Version(d), Version(v)
+    fresh_d, old = fresh(d), fresh(v)
     ev(2, 1, obj, pp, src)
     ev(1, 2, pp, obj, src)
-    ev(2, 2, obj, fresh, src + " <op> fresh object of its own string")
-    ev(2, 2, fresh, obj, "fresh object of its own string <op> " + src)
+    ev(2, 2, obj, fresh_d, src + " <op> fresh object of its own string")
+    ev(2, 2, fresh_d, obj, "fresh object of its own string <op> " + src)
     ev(2, 0, obj, old, src + " <op> fresh object of its former string")
     ev(0, 2, old, obj, "fresh object of its former string <op> " + src)
     ev(2, 1, obj, partner, src + " <op> str", obj, pp)
     ev(2, 1, obj, pp, src + ", second time")
     strs = [v, partner, d]
-    return {"vs": [cps(x) for x in strs], "strs": strs, "events": events, "notes": [], "bop": [op, salt]}
+    return {"vs": [cps(x) for x in strs], "strs": strs, "events": events, "notes": [], "bop": [op, salt],
+            "coll": collect([old, pp, obj], strs)}
 
 
 def make_traces(rng, n):
@@ -896,7 +1047,8 @@ def corrupt(t, how):
 
 def validate(ctx, traces, with_controls=True):
     """returns [(trace index, index of first unexplained event)]"""
-    slim = [{"vs": t["vs"], "events": [{k: v for k, v in e.items() if k not in ("exc", "src")} for e in t["events"]]} for t in traces]
+    slim = [{"vs": t["vs"], "events": [{k: v for k, v in e.items() if k not in ("exc", "src")} for e in t["events"]],
+             "coll": {k: v for k, v in t["coll"].items() if k != "exc"}} for t in traces]
     controls = []
     if with_controls:
         for how in ("sign", "op", "equal", "hash"):
@@ -905,7 +1057,16 @@ def validate(ctx, traces, with_controls=True):
                 if c:
                     controls.append(c)
                     break
-        if len(controls) < 4:
+        for t in slim:                     # a wrong sort order / a wrong class count must be rejected too
+            if len(t["vs"]) >= 2 and len(set(map(tuple, t["vs"]))) == len(t["vs"]) and t["coll"]["nset"] == len(t["vs"]):
+                c = copy.deepcopy(t)
+                c["coll"]["order"] = c["coll"]["order"][::-1]
+                controls.append(c)
+                c = copy.deepcopy(t)
+                c["coll"]["nset"] -= 1
+                controls.append(c)
+                break
+        if len(controls) < 6:
             raise core.MachineryError("could not build the corrupted control traces")
     acc, _, _ = core.validate_traces(ctx, "TraceDpkgVersion", "TraceDpkgVersion.cfg", slim,
                                      extra_env={"TRACE_DIAG": "0"}, controls=controls, java_opts=JAVA,
@@ -1074,10 +1235,16 @@ def run(ctx):
     for i, at in bad[:5]:
         t = traces[i]
         e = t["events"][at] if at < len(t["events"]) else None
-        where = "?" if e is None else "%r vs %r [%s]" % (t["strs"][e["i"] - 1], t["strs"][e["j"] - 1], e["src"])
+        if e is None:        # every comparison explained, the collection-level observations are not
+            ctx.violation({"kind": "trace", "strs": t["strs"], "bop": t.get("bop"), "coll": t["coll"]},
+                          "sorted / min / max / set / list.index / Changelog lookup over objects holding %r (positions "
+                          "1..%d) not explained by the dpkg reference: observed %r" % (t["strs"], len(t["strs"]), t["coll"]))
+            continue
+        where = "%r vs %r [%s]" % (t["strs"][e["i"] - 1], t["strs"][e["j"] - 1], e["src"])
         ctx.violation({"kind": "trace", "strs": t["strs"], "bop": t.get("bop"), "first_unexplained_event": at + 1, "event": e},
                       "recorded comparison not explained by the dpkg reference (DpkgVersion.tla): %s observed %r"
-                      % (where, {k: v for k, v in (e or {}).items() if k not in ("i", "j", "src")}))
+                      % (where, {k: v for k, v in e.items() if k not in ("i", "j", "src")}))
+    ctx.extra["objects_per_constructor"] = dict(CONSTRUCTED)
 
     # 4. dpkg itself as a second oracle (also validates the transcription of the reference)
     dpkg_crosscheck(ctx, traces, {i for i, _ in bad}, 150 if quick else 5000)
@@ -1113,7 +1280,9 @@ def replay(ctx, case):
         bad, nrej = validate(ctx, [t], with_controls=False)
         if nrej:
             at = bad[0][1]
-            return "comparison %d of %r still not explained by the specification: %r" % (at + 1, case["strs"], t["events"][at] if at < len(t["events"]) else None)
+            if at >= len(t["events"]):
+                return "collection-level observations over %r still not explained by the specification: %r" % (case["strs"], t["coll"])
+            return "comparison %d of %r still not explained by the specification: %r" % (at + 1, case["strs"], t["events"][at])
         return None
     if kind == "dpkg":
         obs = observe(case["a"], case["b"])
